@@ -256,6 +256,19 @@ def config_immutable(F):
                     if not ok:
                         r.violate("%s | %s" % (fn["path"], hit), F.loc(fn, x),
                                   "%s::%s edits/consumes the iterator's configuration (`%s`): after it ran, reset() or a second traversal no longer skips/visits what the caller configured" % (adt, fn["name"], hit))
+    # a re-configuration installs the whole configuration before it rewinds: reset()/handle_skips() read skip_funcs/metadata
+    from vlib.facts import uncond_before
+    for adt in ("ModuleSubIterator", "ComponentSubIterator"):
+        for fn in F.find_fns(self_adt=adt):
+            if fn.get("body") is None:
+                continue
+            assigns = [x for x in walk(fn["body"]) if x.get("k") == "Assign" and (place_path(x["lhs"]) or "").startswith("self.") and (place_path(x["lhs"]) or "").split(".")[1] in CFG]
+            resets = [x for x in walk(fn["body"]) if x.get("k") == "MethodCall" and x["method"] in ("reset", "handle_skips") and (place_path(x["recv"]) or "") == "self"]
+            if assigns and resets:
+                ok = all(uncond_before(fn["body"], a_, rs_)[0] for a_ in assigns for rs_ in resets)
+                r.ob(ok, {"fn": fn["path"], "config_installed_before_rewind": ok})
+                if not ok:
+                    r.violate("%s | rewind before config" % fn["path"], F.loc(fn, resets[0]), "%s::%s rewinds (reset/handle_skips) before the new configuration is fully installed: the first function is chosen with the previous skip list/metadata" % (adt, fn["name"]))
     reads = 0
     for adt in ("ModuleSubIterator", "ComponentSubIterator"):
         for fn in F.find_fns(self_adt=adt):
